@@ -1,3 +1,4 @@
+import Beetswap.Proofs.HandlerTimed
 import Beetswap.Proofs.ConnHandler
 import Beetswap.Proofs.Handler
 import Beetswap.Proofs.ClientView
@@ -162,6 +163,76 @@ theorem keepAlive_only_client (h : CH) (i : In) (hk : keepAlive h = true)
     ∃ env, i = .poll env ∧ (Inbound.selectPoll h.streams env.inbound env.order).2 = none ∧
       (ClientHandler.poll ClientHandler.pollFuel h.client env.client []).1.halted = true :=
   Proofs.ConnHandler.keepAlive_only_client h i hk hnot
+
+end
+
+
+/-! ### The client half with its clock (`Model/ClientHandlerTimed`)
+
+`START_SENDING_TIMEOUT` as a function of time rather than an answer of the environment: the timer is
+armed when a wantlist is accepted, nothing else moves the deadline — not a new stream, not a failed
+negotiation, not a retry —, and the first poll at or after the deadline that finds the wantlist still
+unsent reports it failed and halts the connection. The recorded handler traces are checked against
+this law (the virtual clock of the simulator stands for `futures_timer`). -/
+section
+open Beetswap.ClientHandler Beetswap.ClientHandlerTimed Beetswap.Proofs.HandlerTimed
+
+/-- Every timed run is a run of `Model/ClientHandler` (with "the timer fired" read off the
+clock), so everything proved about that model — in particular `handler_refines_spec` — holds
+for the timed handler. -/
+theorem timed_is_untimed (t : T) (ins : List TIn) :
+    (run t ins).1.h = (ClientHandler.run t.h (untimedRun t ins)).1 ∧
+    (run t ins).2 = (ClientHandler.run t.h (untimedRun t ins)).2 :=
+  Proofs.HandlerTimed.timed_is_untimed t ins
+
+/-- Accepting a wantlist arms the timer for exactly `START_SENDING_TIMEOUT`. -/
+theorem accept_arms (t : T) (now w : Nat) (hh : t.h.halted = false) :
+    (step t (.sendWantlist now w)).1.h.timer = true ∧
+    (step t (.sendWantlist now w)).1.deadline = now + startSendingTimeout ∧
+    (step t (.sendWantlist now w)).1.h.msg = some w :=
+  Proofs.HandlerTimed.accept_arms t now w hh
+
+/-- Nothing else moves the deadline: not a new stream, not a failed negotiation, not a retry. -/
+theorem deadline_stable (t : T) (i : TIn) (hi : ∀ now w, i ≠ .sendWantlist now w) :
+    (step t i).1.deadline = t.deadline :=
+  Proofs.HandlerTimed.deadline_stable t i hi
+
+theorem timerInv_run (ins : List TIn) : TimerInv (run {} ins).1.h :=
+  Proofs.HandlerTimed.timerInv_run ins
+
+/-- Before the deadline a poll never halts the handler and never reports a failure on account of
+the timer: it behaves as the untimed handler whose timer has not fired. -/
+theorem no_early_timeout (t : T) (now : Nat) (e : SinkEnv) (hnow : now < t.deadline) :
+    (step t (.poll now e)).1.h.halted = t.h.halted ∧
+    step t (.poll now e) =
+      (let r := ClientHandler.step t.h (.poll { timerFired := false, pollReady := e.pollReady, startSendOk := e.startSendOk, flush := e.flush });
+       ({ t with h := r.1 }, r.2)) :=
+  Proofs.HandlerTimed.no_early_timeout t now e hnow
+
+/-- The timeout is enforced: a poll at or after the deadline, with the wantlist still not being
+sent, reports the transmission failed and halts the connection — however often stream
+negotiation was retried in between. -/
+theorem timeout_enforced (t : T) (now : Nat) (e : SinkEnv) (hinv : TimerInv t.h)
+    (hq : t.h.queue = []) (hh : t.h.halted = false) (hc : t.h.closing = false)
+    (ht : t.h.timer = true) (hnow : t.deadline ≤ now) :
+    (step t (.poll now e)).1.h.halted = true ∧ (step t (.poll now e)).1.h.msg = none ∧
+    Out.report (.state .failed) ∈ (step t (.poll now e)).2 :=
+  Proofs.HandlerTimed.timeout_enforced t now e hinv hq hh hc ht hnow
+
+/-- From acceptance to the deadline: if a wantlist is accepted at `t0`, then after any inputs
+that hand over no further wantlist, a poll at a time `≥ t0 + START_SENDING_TIMEOUT` finds the
+timer either disarmed (sending started, or failed already, or closing) or fires it now. -/
+theorem accepted_then_deadline (t : T) (t0 w : Nat) (hh : t.h.halted = false) (mid : List TIn)
+    (hmid : ∀ i ∈ mid, ∀ now w', i ≠ .sendWantlist now w') :
+    (run (step t (.sendWantlist t0 w)).1 mid).1.deadline = t0 + startSendingTimeout :=
+  Proofs.HandlerTimed.accepted_then_deadline t t0 w hh mid hmid
+
+
+/-- Non-vacuity: a peer that never grants a stream: accepted at 1000 ms, negotiation fails three
+times, polled at 6000 ms: reported failed, halted. -/
+example : (ClientHandlerTimed.run {} [.sendWantlist 1000 7, .poll 1000 ⟨.pending, true, .pending⟩, .allocFailed,
+    .poll 3000 ⟨.pending, true, .pending⟩, .allocFailed, .poll 5999 ⟨.pending, true, .pending⟩, .allocFailed,
+    .poll 6000 ⟨.pending, true, .pending⟩]).1.h.halted = true := by decide
 
 end
 
